@@ -154,6 +154,73 @@ def judge(elem, style, text, res):
     return bad
 
 
+# ---------------------------------------------------------------------------------------------
+# the token's OWN mathvariant decides, wherever the token sits: inside an mstyle that carries another mathvariant (with one or several
+# children, directly or below an mfrac/msup), next to siblings with other values
+# ---------------------------------------------------------------------------------------------
+CONTEXTS = ["mstyle-multi", "mstyle-single", "mstyle-deep", "siblings"]
+
+
+def context_cases():
+    out = []
+    outer = ["bold", "italic", "fraktur", "normal", "double-struck", "sans-serif-bold-italic"]
+    for own in MAPPED + ["normal"]:
+        for v in outer:
+            if v == own:
+                continue
+            for elem in ("mi", "mtext", "mn"):
+                for blob in ("".join(LATIN), "".join(DIGITS), "".join(GREEK), "g", "A", "7"):
+                    for ctx in CONTEXTS:
+                        out.append((elem, own, blob, v, ctx))
+    return out
+
+
+def context_input(elem, own, text, v, ctx):
+    tok = "<%s id='T' mathvariant='%s'>%s</%s>" % (elem, mml.esc(own), mml.esc(text), elem)
+    if ctx == "mstyle-multi":
+        return "<math><mstyle mathvariant='%s'><mi>A</mi><mo>+</mo>%s</mstyle></math>" % (v, tok)
+    if ctx == "mstyle-single":
+        return "<math><mi>A</mi><mo>=</mo><mstyle mathvariant='%s'>%s</mstyle></math>" % (v, tok)
+    if ctx == "mstyle-deep":
+        return "<math><mstyle mathvariant='%s'><mi>A</mi><mo>+</mo><mfrac><msup>%s<mn>2</mn></msup><mi>b</mi></mfrac></mstyle></math>" % (v, tok)
+    return "<math><mi mathvariant='%s'>A</mi><mo>+</mo>%s<mo>+</mo><mi mathvariant='%s'>b</mi></math>" % (v, tok, v)
+
+
+def context_shard(spec):
+    st = core.Stats()
+    with core.Driver("native", timeout=20) as d:
+        d.init({"TTS": "None"})
+        for (elem, own, text, v, ctx) in spec["cases"]:
+            xml = context_input(elem, own, text, v, ctx)
+            try:
+                res = d.call("set_mathml", xml)
+            except core.DriverDied:
+                st.inconclusive += 1
+                return st.to_dict()
+            st.evaluations += 1
+            if res["r"] != "ok":
+                st.count("context_set_mathml_not_ok")
+                continue
+            try:
+                root = mml.parse(res["v"])
+            except Exception:
+                continue
+            target = [e for e in root.iter() if e.get("id") == "T"]
+            if len(target) != 1 or len(target[0]) != 0:
+                st.count("context_token_not_located")         # merged with a neighbour (digits) or restructured: not judged here
+                continue
+            reduced = dict(res, v="<math><%s>%s</%s></math>" % (elem, mml.esc(target[0].text or ""), elem))
+            problems = judge(elem, own, text, reduced)
+            for kind, sig, detail in problems:
+                st.violations.append(core.violation(kind, "%s | token inside %s[%s]" % (sig, ctx, "other value"), {"elem": elem, "style": own, "text": text, "outer": v, "context": ctx},
+                                                    "%s | input %s" % (detail, xml)))
+                break
+            if not problems:
+                st.count("context_tokens_judged")
+                st.nontrivial.add(core.h16("ctx|%s|%s|%s|%s|%s" % (elem, own, text, v, ctx)))
+    return st.to_dict()
+
+
 def shard(spec):
     st = core.Stats()
     flavour = spec.get("flavour", "native")
@@ -233,6 +300,8 @@ def miri_shard(spec):
 
 
 def replay(witness):
+    if "context" in witness:
+        return context_shard({"cases": [(witness["elem"], witness["style"], witness["text"], witness["outer"], witness["context"])]})["violations"]
     spec = {"cases": [(witness["elem"], witness["style"], witness["text"])], "flavour": witness.get("flavour", "native")}
     core.build_driver(spec["flavour"])
     return shard(spec)["violations"]
@@ -250,7 +319,9 @@ def run(tier, seed):
     nsh = core.NPROC
     specs = [{"cases": sum((groups[k] for k in keys[i::nsh]), [])} for i in range(nsh)]
     results = core.run_shards(shard, specs)
-    extra = {"exhaustive": True, "table_pairs": len(all_cases),
+    cc = context_cases()
+    results += core.run_shards(context_shard, [{"cases": cc[i::nsh]} for i in range(nsh)])
+    extra = {"exhaustive": True, "context_cases": len(cc), "table_pairs": len(all_cases),
              "ucd_version": unicodedata.unidata_version,
              "oracle": "UCD <font> decompositions + character names; documented fallbacks from the property statement"}
     # the same exhaustive workload under sanitizers: the unchecked integer->char conversion is the target
@@ -290,5 +361,6 @@ def run(tier, seed):
         t0,
         rule="exhaustive enumeration of (token element, mathvariant value, character) over 13 mapped values + unmapped/unknown values x "
              "ASCII letters, digits, Greek letters, variant symbols, digammas and characters outside the table, as single-character tokens and "
-             "whole-alphabet tokens; a case is non-trivial when the token text was actually changed by the mapping; distinct by (element, value, text)",
+             "whole-alphabet tokens; plus the same tokens (alphabets and single characters) with their own mathvariant inside an mstyle that carries ANOTHER value "
+             "(one child, several children, below mfrac/msup) and between siblings with another value: the token's own value decides; a case is non-trivial when the token text was actually changed by the mapping; distinct by (element, value, text)",
         harness_errors=errors, known_replayed=known, fixed_failures=fixed_failures)
